@@ -160,7 +160,10 @@ class MarkovChain(ABC):
         sample = sample[sorter, :]
         probs = probs[sorter]
         # trim lowest-probability samples
-        cutoff = int(probs.size * (1 - interval))
+        # (the number of samples outside the interval, rounded down - where a product that is
+        # a whole number but for the rounding of '1 - interval' is that number: 10 * (1 - 0.9)
+        # is 0.9999999999999998, and one sample of ten lies outside a 90% interval)
+        cutoff = int(probs.size * (1 - interval) + 1e-12 * probs.size)
         sample = sample[cutoff:, :]
         probs = probs[cutoff:]
 
